@@ -327,6 +327,20 @@ theorem C13_heap_two_builders (fuel : Nat) (h h' : Heap κ σ) (c₂ : Nat) (us 
   obtain ⟨hs1, hc1⟩ := f.other h1 d12
   exact ⟨hs1, unfoldH_congr h1 hs1, hc1, _, fun _ => .inl, f.closed, f.disjoint h1 d12⟩
 
+/-- **The separation hypothesis is reachable**: loading a document (parsing YAML: `allocV`) allocates a
+closed region of new objects.  Every region `A` that existed before is untouched, still closed, and shares
+nothing with the new document — so a builder's freshly loaded configuration starts separate from
+everything else, and `C13_heap_separation` keeps it so. -/
+theorem C13_heap_loaded_document_is_separate (h : Heap κ σ) (v : V κ σ) (A : Nat → Prop) (hA : Closed h A) :
+    let h' := (allocV h v).1
+    let D := Fresh h.length h'.length
+    h.length ≤ h'.length ∧ (∀ a, A a → h'[a]? = h[a]?) ∧ Closed h' A ∧ Closed h' D ∧
+    (∀ b, (allocV h v).2 = .ref b → D b) ∧ (∀ a, D a → A a → False) := by
+  obtain ⟨l, sm, cl, rf⟩ := allocV_spec v h.length h (Nat.le_refl _)
+    (fun a ha => absurd ha.2 (by have := ha.1; omega))
+  have hs : ∀ a, A a → (allocV h v).1[a]? = h[a]? := fun a ha => sm a (hA.lt ha)
+  exact ⟨l, hs, hA.of_same hs, cl, rf, fun a hd ha => by have := hA.lt ha; have := hd.1; omega⟩
+
 /-! ### the defect repaired by the `fix:` commit (regression witness)
 
 Before the fix the "target is not a mapping" branch was `copy.copy(source)`: the new `dict` still pointed
